@@ -78,3 +78,13 @@ Print Assumptions C11_topk_partial_heap_refuted.
 Print Assumptions C11_concat_cms_hll.
 Print Assumptions C11_bloom_roundtrip.
 Print Assumptions C11_bitset_roundtrip.
+
+(* several structures of ANY of the five kinds, written back to back into one stream, are read back
+   in order as the same structures, each reader consuming exactly what its writer wrote (the Top-K
+   items with a full heap, as above) *)
+From GX.Proofs Require CodecSeq.
+Theorem C11_back_to_back : forall (l : list CodecSeq.item) rest, Forall CodecSeq.item_wf l ->
+  exists img, CodecSeq.enc_seq l = Ok img /\
+              CodecSeq.dec_seq (map CodecSeq.kind_of l) (img ++ rest) = Ok (l, rest).
+Proof. exact CodecSeq.seq_roundtrip. Qed.
+Print Assumptions C11_back_to_back.
